@@ -29,6 +29,7 @@ Record facts := {
   f_types : list typedef;
   (* __validate_definitions *)
   f_queue_excluded : list string;
+  f_stops : list (string * string);    (* F3: rule handlers that can stop the field's remaining rules, with the condition *)
   f_normalization_rules : list string;
   (* drop lists *)
   f_nullable_drops : list string;
